@@ -127,3 +127,55 @@ def pump_direct(af, kind, m):
       af.thread_runner_lifo(ev, af.lifo_fabric_queue, af.lifo_subscriptions)
   except WouldBlock:
     pass
+
+
+# ---- timed sources ---------------------------------------------------------------------------
+class CutInfiniteSource(BaseException):
+  """raised by the stub clock to cut a times=0 source after M sleeps"""
+
+
+class VirtualTime:
+  """stands for the `time` module inside miros.activeobject: sleep advances a virtual clock"""
+
+  def __init__(self, max_sleeps=None):
+    self.now = 0
+    self.sleeps = []
+    self.max_sleeps = max_sleeps
+
+  def sleep(self, p):
+    if self.max_sleeps is not None and len(self.sleeps) >= self.max_sleeps:
+      raise CutInfiniteSource()
+    self.now += p
+    self.sleeps.append(self.now)
+
+  def time(self):
+    return self.now
+
+
+def timer_threads(alive_only=False):
+  out = []
+  for t in hosts.SimThread.registry:
+    if getattr(t.target, "__name__", "") == "post_event_thread_runner":
+      if alive_only and not t.is_alive():
+        continue
+      out.append(t)
+  return out
+
+
+def make_active_object(ao, hsm, name="ao", deco=True, handled_prefix="W", log=None):
+  """a started one-state active object (threads are stand-ins); returns (object, dispatch log)"""
+  from miros.event import signals, return_status
+  log = [] if log is None else log
+
+  def only(chart, e):
+    if e.signal in (signals.ENTRY_SIGNAL, signals.INIT_SIGNAL, signals.EXIT_SIGNAL):
+      return return_status.HANDLED
+    if e.signal_name.startswith(handled_prefix):
+      log.append(e.signal_name)
+      return return_status.HANDLED
+    chart.temp.fun = chart.top
+    return return_status.SUPER
+  st = hsm.spy_on(only) if deco else only
+  a = ao.ActiveObject(name=name)
+  a.start_at(st)
+  return a, log
